@@ -116,6 +116,7 @@ Definition presents_tree (rows : list row) : bool :=
   match rows, the_root rows with
   | _ :: _, Some root =>
       negb (ambiguous rows) && nodup_pairs rows
+      && match root with [] => false | _ => true end               (* a Node has a non-empty name *)
       && forallb (fun r => match rchild r with [] => false | _ => true end) rows
       && forallb (fun r => match rparent r with
                            | None => str_eqb (rchild r) root
